@@ -90,6 +90,20 @@ func run(t *rapid.T, s *sim.Sim, prop string, monitors ...sim.Monitor) (*sim.His
 	return h, e
 }
 
+// puppetMonitor: an applied call of the harness' puppet contract moved exactly the transfers it queued, all of them, or
+// (failed call) only the fee.
+func puppetMonitor(prop string) sim.Monitor {
+	var h0 *sim.History
+	m := sim.PuppetMonitor(func(key, format string, a ...interface{}) error { return viol(prop, key, h0, format, a...) })
+	return func(h *sim.History, txn *transaction.Transaction, o sim.Outcome, before, after *sim.Snapshot) error {
+		h0 = h
+		if txn.ToClientID == sim.PuppetSC && !o.Rejected {
+			vkit.For(prop).Class("puppet-call/" + map[bool]string{true: "failed", false: "ok"}[o.Failed])
+		}
+		return m(h, txn, o, before, after)
+	}
+}
+
 // dump writes the library-free history next to the rapid fail file.
 func dump(prop string, h *sim.History) {
 	_ = os.MkdirAll("history", 0o755)
@@ -153,7 +167,7 @@ func TestC01_SupplyConserved(t *testing.T) {
 			}
 			return nil
 		}
-		h, e := run(t, s, "C01", supplyMonitor, count)
+		h, e := run(t, s, "C01", supplyMonitor, count, puppetMonitor("C01"))
 		sum, un, err := fullScan(sim.ViewOf(h.Cur.B), h)
 		if err != nil {
 			t.Fatalf("VERIF-HARNESS-ERROR %v", err)
@@ -309,7 +323,7 @@ func TestC04_DebitsOnlyAuthorised(t *testing.T) {
 			}
 			return nil
 		}
-		h, e := run(t, s, "C04", mon)
+		h, e := run(t, s, "C04", mon, puppetMonitor("C04"))
 		st.Case()
 		for k, v := range e.Classes {
 			st.ClassN(k, v)
@@ -374,7 +388,7 @@ func TestC05_NoOverdrawNoWrap(t *testing.T) {
 			}
 			return nil
 		}
-		h, e := run(t, s, "C05", mon)
+		h, e := run(t, s, "C05", mon, puppetMonitor("C05"))
 		st.Case()
 		for k, v := range e.Classes {
 			st.ClassN(k, v)
